@@ -175,6 +175,21 @@ public:
         }
     }
 
+    //! Finalize the items that are still parked in the buffer.
+    /** An item that arrived out of turn stays here until its predecessors have passed the filter. If the pipeline is
+        cancelled before that, nobody takes it out anymore and the buffer is its last owner.
+        Not thread-safe: to be called when no task of the pipeline can run anymore. */
+    void finalize_parked_items( d1::base_filter& owner ) {
+        for( size_type i=0; i<array_size; ++i ) {
+            task_info& item = array[i];
+            if( item.is_valid ) {
+                if( item.my_object )
+                    owner.finalize(item.my_object);
+                item.reset();
+            }
+        }
+    }
+
     //! Define order when the first filter is serial_in_order.
     Token get_ordered_token(){
         return high_token++;
@@ -414,6 +429,7 @@ pipeline::~pipeline() {
     while( first_filter ) {
         d1::base_filter* f = first_filter;
         if( input_buffer* b = f->my_input_buffer ) {
+            b->finalize_parked_items(*f);
             b->~input_buffer();
             deallocate_memory(b);
         }
